@@ -226,9 +226,19 @@ class Recorder:
                     params_current = abs(have - want) <= 1e-9 * (1 + abs(want))
             except Exception:
                 pass
+            ckw = st.get('kw', {})
+            opts_ok = True
+            try:
+                if ckw.get('x0') is not None:
+                    opts_ok = opts_ok and np.array_equal(np.asarray(x0, dtype=float), np.asarray(ckw['x0'], dtype=float))
+                opts_ok = opts_ok and (kw.get('tol') == ckw.get('tol'))
+                have_mi = (kw.get('options') or {}).get('maxiter')
+                opts_ok = opts_ok and (have_mi == ckw.get('maxiter'))
+            except Exception:
+                opts_ok = False
             k = st.get('entries', 0)
             st['entries'] = k + 1
-            R.emit(prob, ev='SolverEnter', k=k, fn='minimize', method=str(kw.get('method')), has_jac=kw.get('jac') is not None,
+            R.emit(prob, ev='SolverEnter', k=k, fn='minimize', optsOK=bool(opts_ok), method=str(kw.get('method')), has_jac=kw.get('jac') is not None,
                    has_hess=kw.get('hess') is not None, hook_swapped=warnings.showwarning is not st['entry_hook'],
                    n_cons=len(kw.get('constraints') or ()), rebuilt=bool(rebuilt), bounds_current=bool(bounds_current),
                    params_current=bool(params_current))
@@ -258,7 +268,7 @@ class Recorder:
             bounds_current = True if bnds is None else [tuple(b) for b in bnds] == cur
             k = st.get('entries', 0)
             st['entries'] = k + 1
-            R.emit(prob, ev='SolverEnter', k=k, fn='linprog', method=str(kw.get('method')), has_jac=False, has_hess=False,
+            R.emit(prob, ev='SolverEnter', k=k, fn='linprog', optsOK=True, method=str(kw.get('method')), has_jac=False, has_hess=False,
                    hook_swapped=False, n_cons=0, rebuilt=bool(rebuilt), bounds_current=bool(bounds_current), params_current=True)
             try:
                 r = (R.inner_linprog or R.real['linprog'])(*a, **kw)
@@ -279,18 +289,33 @@ class Recorder:
             st['entries'] = 0
             st['cache_id'] = id(self._solver_cache)
             st['lp_cache_id'] = id(self._lp_cache)
-            R.emit(self, ev='SolveCall', m=str(method), strict=bool(strict))
+            st['kw'] = dict(kw)
+            R.emit(self, ev='SolveCall', m=str(method), strict=bool(strict),
+                   opts={'useHess': bool(kw.get('use_hessian', True)), 'x0': kw.get('x0') is not None,
+                         'tol': kw.get('tol') is not None, 'maxiter': kw.get('maxiter') is not None})
             R.depth += 1
             R.cur = self
             reclimit = sys.getrecursionlimit()
+            caught = []
+            try:
+                return p_solve_recorded(self, method, strict, kw, st, reclimit, caught)
+            finally:
+                # recording must be transparent to the caller (the repository's tests assert on warnings)
+                for w in caught:
+                    warnings.warn_explicit(w.message, w.category, w.filename, w.lineno)
+
+        def p_solve_recorded(self, method, strict, kw, st, reclimit, caught):
             with warnings.catch_warnings(record=True) as wlist:
+                caught_ref = caught
                 warnings.simplefilter('always')
                 st['entry_hook'] = warnings.showwarning
                 st['wlist'] = wlist
+                st['caught'] = caught_ref
                 st['wseen'] = 0
                 try:
                     s = R.real['solve'](self, method=method, strict=strict, **kw)
                 except BaseException as e:
+                    caught_ref.extend(wlist)
                     R.flush_warnings(self)
                     R.emit(self, ev='Raise', exc=type(e).__name__, hook_restored=warnings.showwarning is st['entry_hook'],
                            reclimit_restored=sys.getrecursionlimit() == reclimit)
@@ -298,6 +323,7 @@ class Recorder:
                 finally:
                     R.depth -= 1
                     R.cur = None
+                caught_ref.extend(wlist)
                 R.flush_warnings(self)
                 hook_ok = warnings.showwarning is st['entry_hook']
             objok = True
